@@ -130,6 +130,8 @@ class _Parser:
         rs = norm_ranges(rs)
         if neg:
             rs = complement(rs)
+        # surrogates are not scalar values: no &str contains them
+        rs = subtract(rs, [(0xD800, 0xDFFF)])
         return ("lit", rs)
 
     def _take(self):
